@@ -6,6 +6,7 @@ import (
 	"path/filepath"
 	"strings"
 	"sync"
+	"sync/atomic"
 	"time"
 
 	"github.com/ohler55/slip"
@@ -288,6 +289,14 @@ func runCaseOnce(ctx *common.Ctx, id int64, dir string, b built, limit time.Dura
 		scope.Let(slip.Symbol(fmt.Sprintf("v%d", i)), slip.Fixnum(v))
 	}
 	scope.Let(slip.Symbol("c07-rec"), slip.Fixnum(id))
+	// a run the watchdog gives up on must not go on evaluating next to the following cases (slip's function
+	// table is not made for that): once abandoned, every further call in it fails
+	var abandoned atomic.Bool
+	scope.InterruptCheck = func() {
+		if abandoned.Load() {
+			panic("c07: run abandoned by the watchdog")
+		}
+	}
 	recMu.Lock()
 	recs[id] = rec
 	recMu.Unlock()
@@ -314,6 +323,7 @@ func runCaseOnce(ctx *common.Ctx, id int64, dir string, b built, limit time.Dura
 	case out.Err == "timeout":
 		gres = "MHang"
 		hung = true
+		abandoned.Store(true)
 		curDir = "" // whatever this run holds open stays open: next case gets new files
 		// the goroutine is parked on its mutex for ever; what it holds is what the model says a hang holds
 	case out.Err != "":
@@ -402,7 +412,7 @@ func Run(ctx *common.Ctx) {
 	wrap := func(g *gen, d int) built {
 		// most programs sit inside a block and / or a tagbody with a later tag, so that an exit of each kind
 		// has a target whatever the depth
-		w := []string{"none", "block", "tagbody", "block-tagbody", "tagbody-block", "block-last", "none"}[g.rng.Intn(7)]
+		w := []string{"none", "block", "tagbody", "block-tagbody", "tagbody-block", "block-last", "tagbody-back", "block-tagbody-back", "block-tagbody"}[g.rng.Intn(9)]
 		return built{g: g, main: wrapIn(g, d, w), vars: []int64{int64(g.rng.Intn(3)), int64(g.rng.Intn(3))}}
 	}
 	// (1) systematic family: every form kind x position x exit kind, one level and two levels deep,
@@ -465,7 +475,7 @@ func Run(ctx *common.Ctx) {
 		add(b, fmt.Sprintf("random %s depth=%d exit=%s kinds=%s", mode, d, g.exitKind, strings.Join(g.usedKinds, ">")))
 	}
 	ctx.Meta.DistinctNontrivial = len(distinct)
-	ctx.Meta.Rule = "re-entrant: a generated defun whose return-from / return / go site is evaluated again while its own exit is in flight (self-call from an unwind-protect cleanup form, from the value form of the exit, inside the protected form), called 2-3 times with the counter rewound, every evaluation handing a different value to its exit; systematic: every (form kind x body position x exit kind) one level deep and every ordered pair of form kinds two levels deep, inside (block b (tagbody <nest> (tr) T (tr)) (tr)); random: nestings of depth 1..5 (plus side trees) of block, tagbody, unwind-protect (protected form and cleanup), with-mutex-lock, ignore-errors, recover (body and handler), with-open-file, let (body and init), progn, when (body and test), cond (body and test), dolist, dotimes, do (bodies and result forms), list arguments, return-from value, funcall of a lambda, calls of generated defuns, with an exit (normal, return-from/return to a visible or unknown block, go to a visible tag, error of 5 classes) at a random body position; result + ordered (tr k) trace, each entry with the mutexes held (TryLock) and the descriptors open on the test files (/proc/self/fd), + the same after the run; distinct = distinct programs with at least one nesting form and a non-normal exit"
+	ctx.Meta.Rule = "since repo_fixes/C07-1..21 every body position hands an exit on, so exits stand in first / middle / last positions alike, in arguments, let inits, tests, return-from value forms, cleanup forms and result forms, and a go may jump backward (generated behind a counter test so that every program ends), to symbol tags, out of inner tagbodies, loops and function calls; the steered half of the random programs is lexically scoped (inside the guard), the wild half also names blocks / tags of callers and unknown ones; re-entrant: a generated defun whose return-from / return / go site is evaluated again while its own exit is in flight (self-call from an unwind-protect cleanup form, from the value form of the exit, inside the protected form), called 2-3 times with the counter rewound, every evaluation handing a different value to its exit; systematic: every (form kind x body position x exit kind) one level deep and every ordered pair of form kinds two levels deep, inside (block b (tagbody <nest> (tr) T (tr)) (tr)); random: nestings of depth 1..5 (plus side trees) of block, tagbody, unwind-protect (protected form and cleanup), with-mutex-lock, ignore-errors, recover (body and handler), with-open-file, let (body and init), progn, when (body and test), cond (body and test), dolist, dotimes, do (bodies and result forms), list arguments, return-from value, funcall of a lambda, calls of generated defuns, with an exit (normal, return-from/return to a visible or unknown block, go to a visible tag, error of 5 classes) at a random body position; result + ordered (tr k) trace, each entry with the mutexes held (TryLock) and the descriptors open on the test files (/proc/self/fd), + the same after the run; distinct = distinct programs with at least one nesting form and a non-normal exit"
 	header := "From C07 Require Import Model Spec Corr.\nOpen Scope N_scope.\n"
 	footer := "Definition res := Eval vm_compute in check_all cases.\nPrint res.\n" +
 		"Definition in_guard_count := Eval vm_compute in in_guard cases.\nPrint in_guard_count.\n" +
@@ -479,6 +489,7 @@ func Run(ctx *common.Ctx) {
 //   tagbody:        (tagbody <spine> (tr) T (tr))
 //   block-tagbody:  (block b (tagbody <spine> (tr) T (tr)) (tr))
 //   tagbody-block:  (tagbody (block b <spine> (tr)) (tr) T (tr))
+//   tagbody-back:   (tagbody T (tr) <spine> (tr))   and the same inside a block
 func wrapIn(g *gen, d int, w string) *Form {
 	stmt := func(f *Form) *Form {
 		if f.K == "Const" {
@@ -500,18 +511,30 @@ func wrapIn(g *gen, d int, w string) *Form {
 		}
 		return &Form{K: "Tagbody", Items: []Item{{F: stmt(f)}, {F: g.tr()}, {IsTag: true, Tag: tt}, {F: g.tr()}}}
 	}
+	fwd := []int64{tt}
+	if w == "tagbody-back" || w == "block-tagbody-back" {
+		// the tag is written BEFORE the statement that exits: a go to it is a backward jump (generated behind
+		// a counter test, see gen.goTo)
+		fwd = nil
+		tagbody = func(f *Form) *Form {
+			if adjacent {
+				return &Form{K: "Tagbody", Items: []Item{{F: g.tr()}, {IsTag: true, Tag: tt}, {F: stmt(f)}, {F: g.tr()}}}
+			}
+			return &Form{K: "Tagbody", Items: []Item{{IsTag: true, Tag: tt}, {F: g.tr()}, {F: stmt(f)}, {F: g.tr()}}}
+		}
+	}
 	switch w {
 	case "block-last": // the value of the nest is the value of the program
-		return &Form{K: "Block", N: bt, A: []*Form{g.tr(), g.spine(d, gctx{vb: []int64{bt}, R: []int64{bt}, pb: true})}}
+		return &Form{K: "Block", N: bt, A: []*Form{g.tr(), g.spine(d, gctx{vb: []int64{bt}})}}
 	case "block":
-		return &Form{K: "Block", N: bt, A: []*Form{g.spine(d, gctx{vb: []int64{bt}, R: []int64{bt}, pb: true}), g.tr()}}
-	case "tagbody":
-		return tagbody(g.spine(d, gctx{vg: []int64{tt}, G: []int64{tt}}))
-	case "block-tagbody":
-		sp := g.spine(d, gctx{vb: []int64{bt}, vg: []int64{tt}, G: []int64{tt}})
+		return &Form{K: "Block", N: bt, A: []*Form{g.spine(d, gctx{vb: []int64{bt}}), g.tr()}}
+	case "tagbody", "tagbody-back":
+		return tagbody(g.spine(d, gctx{vg: []int64{tt}, fwd: fwd}))
+	case "block-tagbody", "block-tagbody-back":
+		sp := g.spine(d, gctx{vb: []int64{bt}, vg: []int64{tt}, fwd: fwd})
 		return &Form{K: "Block", N: bt, A: []*Form{tagbody(sp), g.tr()}}
 	case "tagbody-block":
-		sp := g.spine(d, gctx{vb: []int64{bt}, vg: []int64{tt}, R: []int64{bt}, pb: true})
+		sp := g.spine(d, gctx{vb: []int64{bt}, vg: []int64{tt}, fwd: fwd})
 		return tagbody(&Form{K: "Block", N: bt, A: []*Form{sp, g.tr()}})
 	}
 	return g.spine(d, gctx{})
@@ -521,6 +544,9 @@ func sysWrap(g *gen, d int) built {
 	w := "block"
 	if g.forceExit == "go" {
 		w = "tagbody"
+		if g.rng.Chance(35) {
+			w = "tagbody-back"
+		}
 	} else if g.rng.Chance(50) {
 		w = "block-last"
 	}
